@@ -83,3 +83,8 @@ def nontrivial(case, result):
             return True
         return False
     return ls[0][-1] in (0, (1 << w) - 1, 1 << (w - 1))
+
+
+def prebuild(root):
+    """translator: regenerate coq/Generated/Glue.v from /repo/src (proved equal to the model in Proofs/GlueTieC07.v)"""
+    return run_translator(root, "rs2v_glue.py", "C07")
